@@ -49,6 +49,7 @@ func runC13(t *testing.T, seed uint64, m *Mask) *Report {
 	// traffic are placed freely, so a loss may be noticed by a writer and the reader at once, or arrive while a
 	// redial is in progress.
 	overlapping := r.Chance(0.3)
+	slowP := []float64{0, 0.3, 0.8}[r.Intn(3)]
 	var faults []c13Fault
 	type window struct{ from, to time.Duration }
 	var quiet []window
@@ -189,7 +190,11 @@ func runC13(t *testing.T, seed uint64, m *Mask) *Report {
 		srv := e.NewPeer("srv", erpc.PeerConfig{})
 		rt := e.RegisterStd(srv)
 		lis := e.Serve(srv, "10.9.0.1:9000", pf)
-		cli := e.NewPeer("cli", erpc.PeerConfig{RedialTimes: budget, RedialInterval: interval}, rec)
+		// a slow plugin on the caller's side keeps a call "being launched" (written, AsyncCall not yet returned)
+		// for a while, so that a loss noticed by the reader can land there; before the write only in the
+		// overlapping space, where the writer may notice the loss as well
+		slow := &world.Slow{Env: e, P: slowP, PostLaunch: true, PreLaunch: overlapping, LaunchMax: 6 * time.Millisecond}
+		cli := e.NewPeer("cli", erpc.PeerConfig{RedialTimes: budget, RedialInterval: interval}, rec, slow)
 		sess, st := cli.Dial("10.9.0.1:9000", pf)
 		if !st.OK() {
 			e.Fail("infra-dial-failed", "dial: %v", st)
